@@ -19,6 +19,7 @@ mod c13;
 mod c14;
 mod c15;
 mod c16;
+mod c17;
 mod c18;
 mod c19;
 mod c20;
@@ -44,6 +45,7 @@ fn table(prop: &str) -> Option<(RunFn, ReplayFn)> {
     "C14" => (c14::run, c14::replay),
     "C15" => (c15::run, c15::replay),
     "C16" => (c16::run, c16::replay),
+    "C17" => (c17::run, c17::replay),
     "C18" => (c18::run, c18::replay),
     "C19" => (c19::run, c19::replay),
     "C20" => (c20::run, c20::replay),
